@@ -1447,9 +1447,12 @@ static int sp_dgemm(char tA, char tB, number alpha, void *a, void *b,
     }
 
     int j, l;
+    /* a column of the result is full if the column of op(B) has entries;
+       otherwise it is beta times the column of C (empty if beta is 0) */
     for (j=0; j<n; j++)
       colptr_new[j+1] = colptr_new[j] +
-      MAX(((B->colptr[j+1]-B->colptr[j])>0)*m, C->colptr[j+1]-C->colptr[j]);
+      ((B->colptr[j+1]-B->colptr[j]) > 0 ? m :
+          (beta.d != 0.0 ? C->colptr[j+1]-C->colptr[j] : 0));
 
     int_t nnz = colptr_new[n];
     ccs *Z = alloc_ccs(m, n, nnz, C->id);
@@ -1478,7 +1481,7 @@ static int sp_dgemm(char tA, char tB, number alpha, void *a, void *b,
       }
 
       if (beta.d != 0.0) {
-        if (Z->colptr[j+1]-Z->colptr[j] == m) {
+        if (B->colptr[j+1]-B->colptr[j] > 0) {
           for (l=C->colptr[j]; l<C->colptr[j+1]; l++) {
             ((double *)Z->values)[Z->colptr[j]+C->rowind[l]] +=
                 beta.d*((double *)C->values)[l];
@@ -1902,9 +1905,17 @@ static int sp_zgemm(char tA, char tB, number alpha, void *a, void *b,
     }
 
     int i, j, l;
+    /* a column of the result is full if the column of op(B) has entries;
+       otherwise it is beta times the column of C (empty if beta is 0) */
     for (j=0; j<n; j++)
       colptr_new[j+1] = colptr_new[j] +
-      MAX(((B->colptr[j+1]-B->colptr[j])>0)*m, C->colptr[j+1]-C->colptr[j]);
+      ((B->colptr[j+1]-B->colptr[j]) > 0 ? m :
+#ifndef _MSC_VER
+          (beta.z != 0.0 ? C->colptr[j+1]-C->colptr[j] : 0));
+#else
+          ((creal(beta.z) != 0.0 || cimag(beta.z) != 0.0) ?
+              C->colptr[j+1]-C->colptr[j] : 0));
+#endif
 
     int_t nnz = colptr_new[n];
     ccs *Z = alloc_ccs(m, n, nnz, C->id);
@@ -1945,7 +1956,7 @@ static int sp_zgemm(char tA, char tB, number alpha, void *a, void *b,
 #else
       if (creal(beta.z) != 0.0 || cimag(beta.z) != 0.0) {
 #endif
-        if (Z->colptr[j+1]-Z->colptr[j] == m) {
+        if (B->colptr[j+1]-B->colptr[j] > 0) {
           for (l=C->colptr[j]; l<C->colptr[j+1]; l++) {
 #ifndef _MSC_VER
             ((double complex *)Z->values)[Z->colptr[j]+C->rowind[l]] +=
